@@ -1,0 +1,437 @@
+//! Verification hooks; compiled only with the `verif` cargo feature.
+//!
+//! Emits one JSON object (as a `String`) per interesting step of a transform
+//! into a thread-local sink. With no sink installed every hook is a no-op.
+//! Events carry a per-thread sequence number; no wall-clock time is used.
+
+use std::cell::{Cell, RefCell};
+use std::fmt::Write as _;
+use std::io::Write as _;
+
+use crate::TransformConfig;
+
+thread_local! {
+    static SINK: RefCell<Option<Vec<String>>> = const { RefCell::new(None) };
+    static SEQ: Cell<u64> = const { Cell::new(0) };
+    static DEPTH: Cell<u32> = const { Cell::new(0) };
+    static SCOPES: Cell<usize> = const { Cell::new(0) };
+    static ELSTACK: Cell<usize> = const { Cell::new(0) };
+    static IN_SPECS: Cell<bool> = const { Cell::new(false) };
+    static CAP: Cell<usize> = const { Cell::new(2_000_000) };
+}
+
+/// Install a fresh sink for the current thread.
+pub fn install() {
+    SINK.with(|s| *s.borrow_mut() = Some(Vec::new()));
+    SEQ.with(|s| s.set(0));
+    INSIDE.with(|i| i.set(false));
+    reset_mirrors();
+}
+
+/// Limit the number of events recorded per sink (further events are dropped).
+pub fn set_cap(cap: usize) {
+    CAP.with(|c| c.set(cap));
+}
+
+fn reset_mirrors() {
+    DEPTH.with(|d| d.set(0));
+    SCOPES.with(|d| d.set(0));
+    ELSTACK.with(|d| d.set(0));
+    IN_SPECS.with(|d| d.set(false));
+}
+
+/// Remove the sink and return what was recorded.
+pub fn take() -> Vec<String> {
+    SINK.with(|s| s.borrow_mut().take()).unwrap_or_default()
+}
+
+pub fn active() -> bool {
+    SINK.with(|s| s.borrow().is_some())
+}
+
+fn esc(s: &str) -> String {
+    let mut o = String::with_capacity(s.len() + 2);
+    for c in s.chars() {
+        match c {
+            '"' => o.push_str("\\\""),
+            '\\' => o.push_str("\\\\"),
+            '\n' => o.push_str("\\n"),
+            '\r' => o.push_str("\\r"),
+            '\t' => o.push_str("\\t"),
+            c if (c as u32) < 0x20 => {
+                let _ = write!(o, "\\u{:04x}", c as u32);
+            }
+            c => o.push(c),
+        }
+    }
+    o
+}
+
+/// Record an event `{"e":<kind>,"seq":n,<body>}`; `body` is a JSON fragment
+/// without braces (may be empty).
+pub fn emit(kind: &str, body: &str) {
+    SINK.with(|s| {
+        if let Some(v) = s.borrow_mut().as_mut() {
+            if v.len() >= CAP.with(|c| c.get()) {
+                return;
+            }
+            let seq = SEQ.with(|q| {
+                let n = q.get() + 1;
+                q.set(n);
+                n
+            });
+            let mut line = format!("{{\"e\":\"{kind}\",\"seq\":{seq}");
+            if !body.is_empty() {
+                line.push(',');
+                line.push_str(body);
+            }
+            line.push('}');
+            v.push(line);
+        }
+    });
+}
+
+pub fn depth_changed(delta: i32, now: u32) {
+    DEPTH.with(|d| d.set(now));
+    if active() {
+        emit("depth", &format!("\"d\":{delta},\"now\":{now}"));
+    }
+}
+
+pub fn scope_changed(op: &str, scopes: usize, elstack: usize) {
+    SCOPES.with(|d| d.set(scopes));
+    ELSTACK.with(|d| d.set(elstack));
+    if active() {
+        emit(
+            "scope",
+            &format!("\"op\":\"{op}\",\"h\":{scopes},\"els\":{elstack}"),
+        );
+    }
+}
+
+pub fn specs_flag(v: bool) {
+    IN_SPECS.with(|d| d.set(v));
+}
+
+pub fn set_var(name: &str, scopes: usize) {
+    if active() {
+        emit(
+            "setvar",
+            &format!("\"name\":\"{}\",\"h\":{scopes}", esc(name)),
+        );
+    }
+}
+
+pub fn registered(id: &str, first: bool) {
+    if active() {
+        emit("reg", &format!("\"id\":\"{}\",\"first\":{first}", esc(id)));
+    }
+}
+
+pub fn config(cfg: &TransformConfig) {
+    if active() {
+        emit(
+            "config",
+            &format!(
+                "\"depth_limit\":{},\"loop_limit\":{},\"var_limit\":{},\"seed\":{}",
+                cfg.depth_limit,
+                cfg.loop_limit,
+                cfg.var_limit,
+                cfg.seed % 1_000_000_007
+            ),
+        );
+    }
+}
+
+pub fn pass_begin(pending: usize) {
+    if active() {
+        emit("pass", &format!("\"pending\":{pending}"));
+    }
+}
+
+pub fn tag_result(idx: &str, is_el: bool, ok: bool, in_specs: bool, err: &str) {
+    if active() {
+        emit(
+            "tag",
+            &format!(
+                "\"idx\":\"{}\",\"el\":{is_el},\"ok\":{ok},\"specs\":{in_specs},\"err\":\"{}\"",
+                esc(idx),
+                esc(err)
+            ),
+        );
+    }
+}
+
+pub fn pass_end(remain: usize, ok: bool) {
+    if active() {
+        emit("passend", &format!("\"remain\":{remain},\"ok\":{ok}"));
+    }
+}
+
+pub fn iteration(kind: &str, n: u32, limit: u32) {
+    if active() {
+        emit(
+            "iter",
+            &format!("\"kind\":\"{kind}\",\"n\":{n},\"limit\":{limit}"),
+        );
+    }
+}
+
+pub fn rng_draw(func: &str) {
+    if active() {
+        emit("rng", &format!("\"f\":\"{func}\""));
+    }
+}
+
+pub fn scan_begin(kind: &str, len: usize) {
+    if active() {
+        emit("scanbegin", &format!("\"kind\":\"{kind}\",\"len\":{len}"));
+    }
+}
+
+pub fn scan_step(kind: &str, idx: usize, len: usize) {
+    if active() {
+        emit(
+            "scan",
+            &format!("\"kind\":\"{kind}\",\"idx\":{idx},\"len\":{len}"),
+        );
+    }
+}
+
+pub fn eval_done(ntok: usize, maxdepth: usize, ok: bool) {
+    if active() {
+        emit(
+            "eval",
+            &format!("\"ntok\":{ntok},\"maxdepth\":{maxdepth},\"ok\":{ok}"),
+        );
+    }
+}
+
+/// Short classification of an error for trace events.
+pub fn err_kind(e: &crate::errors::SvgdxError) -> &'static str {
+    use crate::errors::SvgdxError::*;
+    match e {
+        IoError(_) => "io",
+        ParseError(_) => "parse",
+        InvalidData(_) => "invalid",
+        ReferenceError(_) => "ref",
+        VarLimitError(..) => "var",
+        LoopLimitError(..) => "loop",
+        DepthLimitExceeded(..) => "depth",
+        CircularRefError(_) => "circular",
+        DocumentError(_) => "document",
+        MissingAttribute(_) => "missingattr",
+        MissingBoundingBox(_) => "missingbbox",
+        MessageError(_) => "message",
+        InternalLogicError(_) => "internal",
+        MultiError(_) => "multi",
+        OtherError(_) => "other",
+    }
+}
+
+/// Kinds of all leaf errors contained in an error (sorted, unique).
+pub fn err_kinds(e: &crate::errors::SvgdxError) -> Vec<&'static str> {
+    fn walk(e: &crate::errors::SvgdxError, out: &mut Vec<&'static str>) {
+        if let crate::errors::SvgdxError::MultiError(m) = e {
+            for (_el, inner) in m.values() {
+                walk(inner, out);
+            }
+        } else {
+            out.push(err_kind(e));
+        }
+    }
+    let mut v = Vec::new();
+    walk(e, &mut v);
+    v.sort();
+    v.dedup();
+    v
+}
+
+/// RAII guard logging entry to / every exit from an element's evaluation,
+/// together with the depth and scope heights in force at that moment.
+pub struct ElGuard {
+    name: String,
+    idx: String,
+}
+
+impl ElGuard {
+    pub fn new(name: &str, idx: &str, line: usize) -> Self {
+        if active() {
+            emit(
+                "enter",
+                &format!(
+                    "\"name\":\"{}\",\"idx\":\"{}\",\"line\":{line},\"depth\":{},\"h\":{},\"els\":{},\"specs\":{}",
+                    esc(name),
+                    esc(idx),
+                    DEPTH.with(|d| d.get()),
+                    SCOPES.with(|d| d.get()),
+                    ELSTACK.with(|d| d.get()),
+                    IN_SPECS.with(|d| d.get()),
+                ),
+            );
+        }
+        Self {
+            name: name.to_owned(),
+            idx: idx.to_owned(),
+        }
+    }
+}
+
+impl Drop for ElGuard {
+    fn drop(&mut self) {
+        if active() {
+            emit(
+                "exit",
+                &format!(
+                    "\"name\":\"{}\",\"idx\":\"{}\",\"depth\":{},\"h\":{},\"els\":{},\"specs\":{}",
+                    esc(&self.name),
+                    esc(&self.idx),
+                    DEPTH.with(|d| d.get()),
+                    SCOPES.with(|d| d.get()),
+                    ELSTACK.with(|d| d.get()),
+                    IN_SPECS.with(|d| d.get()),
+                ),
+            );
+        }
+    }
+}
+
+/// State of the context at the end of a transform (property probe).
+#[derive(Debug, Clone, Default)]
+pub struct Probe {
+    pub depth: u32,
+    pub scopes: usize,
+    pub elstack: usize,
+    pub in_specs: bool,
+    pub real_svg: bool,
+}
+
+thread_local! {
+    static INSIDE: Cell<bool> = const { Cell::new(false) };
+}
+
+/// True exactly once per outermost `transform_stream` call on this thread.
+pub fn enter_outermost() -> bool {
+    if INSIDE.with(|i| i.get()) {
+        return false;
+    }
+    auto_install();
+    INSIDE.with(|i| i.set(true));
+    true
+}
+
+pub fn begin(cfg: &TransformConfig) {
+    reset_mirrors();
+    if active() {
+        emit(
+            "begin",
+            &format!(
+                "\"depth_limit\":{},\"loop_limit\":{},\"var_limit\":{},\"seed\":{}",
+                cfg.depth_limit,
+                cfg.loop_limit,
+                cfg.var_limit,
+                cfg.seed % 1_000_000_007
+            ),
+        );
+    }
+}
+
+/// Called when the per-transform context is dropped: the real values of the
+/// context fields (not the mirrors).
+pub fn probe(p: &Probe) {
+    if active() {
+        emit(
+            "probe",
+            &format!(
+                "\"depth\":{},\"h\":{},\"els\":{},\"specs\":{},\"real\":{}",
+                p.depth, p.scopes, p.elstack, p.in_specs, p.real_svg
+            ),
+        );
+    }
+}
+
+pub fn end(res: &crate::errors::Result<()>) {
+    INSIDE.with(|i| i.set(false));
+    if active() {
+        let (ok, kinds) = match res {
+            Ok(()) => (true, String::new()),
+            Err(e) => (
+                false,
+                err_kinds(e)
+                    .iter()
+                    .map(|k| format!("\"{k}\""))
+                    .collect::<Vec<_>>()
+                    .join(","),
+            ),
+        };
+        emit("end", &format!("\"ok\":{ok},\"errs\":[{kinds}]"));
+    }
+    dump_if_requested();
+}
+
+/// Harness entry: transform `input` and return the result, the recorded
+/// trace and the end-of-transform probe.
+pub fn transform_traced(
+    input: &[u8],
+    cfg: &TransformConfig,
+) -> (crate::errors::Result<String>, Vec<String>) {
+    install();
+    let mut reader = std::io::Cursor::new(input);
+    let mut out: Vec<u8> = Vec::new();
+    let res = crate::transform_stream(&mut reader, &mut out, cfg);
+    let trace = take();
+    let res = res.and_then(|_| String::from_utf8(out).map_err(crate::errors::SvgdxError::from));
+    (res, trace)
+}
+
+/// Direct entry to the attribute evaluator with a variable map (for
+/// high-volume expression checks without XML overhead).
+pub fn eval_attr_with(
+    vars: &[(String, String)],
+    value: &str,
+    seed: u64,
+) -> crate::errors::Result<String> {
+    let cfg = TransformConfig {
+        seed,
+        ..Default::default()
+    };
+    let mut ctx = crate::context::TransformerContext::from_config(&cfg);
+    for (k, v) in vars {
+        ctx.set_var(k, v);
+    }
+    crate::expression::eval_attr(value, &ctx)
+}
+
+/// If `SVGDX_VERIF_TRACE_DIR` is set and no sink is installed by a harness,
+/// `transform_stream` installs one itself and the trace is written there.
+pub fn auto_install() -> bool {
+    if !active() && std::env::var_os("SVGDX_VERIF_TRACE_DIR").is_some() {
+        install();
+        AUTO.with(|a| a.set(true));
+        return true;
+    }
+    false
+}
+
+thread_local! {
+    static AUTO: Cell<bool> = const { Cell::new(false) };
+}
+
+fn dump_if_requested() {
+    if !AUTO.with(|a| a.get()) {
+        return;
+    }
+    AUTO.with(|a| a.set(false));
+    let trace = take();
+    if let Some(dir) = std::env::var_os("SVGDX_VERIF_TRACE_DIR") {
+        static N: std::sync::atomic::AtomicU64 = std::sync::atomic::AtomicU64::new(0);
+        let n = N.fetch_add(1, std::sync::atomic::Ordering::SeqCst);
+        let path =
+            std::path::Path::new(&dir).join(format!("trace-{}-{}.ndjson", std::process::id(), n));
+        if let Ok(mut f) = std::fs::File::create(path) {
+            for l in trace {
+                let _ = writeln!(f, "{l}");
+            }
+        }
+    }
+}
